@@ -39,10 +39,11 @@
 (*    annotations in the manifest are modelled (family "edge", field pre):  *)
 (*    the default handler OVERWRITES every key it writes; the extra handler *)
 (*    KEEPS a pre-set urls / urls.<j> / prefetch key ("nop if this key is   *)
-(*    already set" in the code) - so for the extra flavour the URL and      *)
-(*    prefetch clauses are claimed only for keys that were not pre-set, and *)
-(*    the keeping itself is pinned by ExtraKeepsPreset (candidate finding,  *)
-(*    see the builder report).                                              *)
+(*    already set" in the code). With such a manifest the C20 formulas are  *)
+(*    FALSE for the extra flavour (known finding :fl=extra:preset). Guard   *)
+(*    ExtraStripsPreset: TRUE = repaired design (checked exhaustively),     *)
+(*    FALSE = the pinned code (negative control; used for conformance);     *)
+(*    the keeping itself is pinned by ExtraKeepsPreset.                     *)
 (*  - entries with equal digests have the same media-type class             *)
 (*    (TypeByDigest), the config digest differs from every layer digest.    *)
 (*  - tampering never turns a value into a DIFFERENT well-formed value      *)
@@ -69,6 +70,10 @@ CONSTANTS
                         \* (FALSE: validates v+u, then appends ","+u - a label of MaxSize+1 bytes can result)
     WriteEmptyUrlLabels,\* the default handler writes urls / urls.<i> even for an empty URL list, which is what
                         \* overwrites same-named annotations already present on the manifest's descriptor
+    ExtraStripsPreset,  \* TRUE: repaired design - the extra handler's urls / urls.<j> / prefetch labels never come from
+                        \*       annotations the manifest's descriptor already carried
+                        \* FALSE: the pinned code ("nop if this key is already set"): RoundTrip / PrefetchSizeRoundTrips are
+                        \*       false for crafted manifests (KNOWN finding); negative control and conformance setting
     WholeDigests,       \* the layers list stops BEFORE a digest that does not fit (never cut inside one)
     UrlIdx,             \* "layer": the default handler keys urls.<i> by position in the layers label (what the
                         \*          reader uses) - the code after the commit "fix: index neighbour URL labels by
@@ -275,8 +280,13 @@ ExtraAnn(man, t, ref, pf) ==
         urlann == [key \in {UrlsIdxKey(j - 1) : j \in J} |->
                      LET j == CHOOSE jj \in J : UrlsIdxKey(jj - 1) = key
                      IN AWV(key, ch[FirstWithDigest(ch, nl.items[j])].urls)]
+        \* "nop if this key is already set": what came with the manifest wins over the three below (pinned code);
+        \* in the repaired design the manifest's urls / urls.<j> / prefetch annotations are dropped first
+        pre == IF ExtraStripsPreset
+               THEN [k \in {x \in DOMAIN PreAnn(c) : ~IsUrlKey(x) /\ x # PrefetchKey} |-> PreAnn(c)[k]]
+               ELSE PreAnn(c)
     IN wrapper
-       @@ PreAnn(c)          \* "nop if this key is already set": what came with the manifest wins over the three below
+       @@ pre
        @@ (UrlsKey :> AWV(UrlsKey, c.urls))
        @@ (PrefetchKey :> Val(<<pf>>, PfTab[pf].len))
        @@ urlann
@@ -371,31 +381,22 @@ Matched(fl, rd) == (fl = "default" /\ rd \in {"default", "chain"}) \/ (fl = "ext
 Following(man, t) ==
     LET ch == Children(man) IN SelectSeq(SubSeq(ch, t + 1, Len(ch)), LAMBDA e : e.isLayer /\ e.d # ch[t].d)
 
-\* Keys that the EXTRA handler leaves as the manifest's descriptor pre-set them ("nop if this key is already set"):
-\* the value read back for such a key is the manifest's annotation, not derived from the descriptor. The default
-\* handler overwrites everything it writes, so for it the set is empty and the formulas below apply in full.
-KeptKeys(man, t, fl) ==
-    IF fl = "extra" THEN {Children(man)[t].pre[i].k : i \in 1..Len(Children(man)[t].pre)} ELSE {}
-UrlIdxKeys == {UrlsIdxKey(i) : i \in 0..99}
-
 \* RoundTrip: untampered labels, read by the reader that belongs to the flavour
 PRoundTrip(man, t, ref, fl, res) ==
     LET ch == Children(man)
         c == ch[t]
         fol == Following(man, t)
-        kept == KeptKeys(man, t, fl)
     IN /\ res.ok
        /\ res.ref = ref
        /\ res.digest = c.d
        \* the descriptor's URLs - never those of an annotation that came with the manifest
-       /\ UrlsKey \notin kept => UrlsSame(res.urls, c.urls, Len(UrlsKey))
+       /\ UrlsSame(res.urls, c.urls, Len(UrlsKey))
        /\ Len(res.neigh) <= Len(fol)
        /\ \A k \in 1..Len(res.neigh) :
             /\ k <= Len(fol) => res.neigh[k].d = fol[k].d
             \* its own URLs, never another layer's: the URLs of a manifest layer with this very digest
-            /\ kept \cap UrlIdxKeys = {} =>
-                 \E i \in 1..Len(ch) : /\ ch[i].isLayer /\ ch[i].d = res.neigh[k].d
-                                       /\ UrlsSame(res.neigh[k].urls, ch[i].urls, MaxUrlsIdxKeyLen)
+            /\ \E i \in 1..Len(ch) : /\ ch[i].isLayer /\ ch[i].d = res.neigh[k].d
+                                     /\ UrlsSame(res.neigh[k].urls, ch[i].urls, MaxUrlsIdxKeyLen)
 
 \* stronger, positional pairing: neighbour k carries the URLs of the k-th following layer ENTRY. Holds for the
 \* default handler; the extra handler looks URLs up by digest (layerFromDigest: first child with the digest), so
@@ -403,17 +404,16 @@ PRoundTrip(man, t, ref, fl, res) ==
 UrlsByDigest(man) == \A a, b \in 1..Len(man) : man[a].d = man[b].d => man[a].urls = man[b].urls
 PNeighbourUrlsPositional(man, t, fl, res) ==
     LET fol == Following(man, t) IN
-    (res.ok /\ (fl = "default" \/ UrlsByDigest(man)) /\ KeptKeys(man, t, fl) \cap UrlIdxKeys = {}) =>
+    (res.ok /\ (fl = "default" \/ UrlsByDigest(man))) =>
         \A k \in 1..Len(res.neigh) : k <= Len(fol) => UrlsSame(res.neigh[k].urls, fol[k].urls, MaxUrlsIdxKeyLen)
 
 \* PrefetchSizeRoundTrips: the prefetch label is present and carries exactly the size given to the handler
-PPrefetch(man, t, fl, wl, pf) ==
-    PrefetchKey \notin KeptKeys(man, t, fl) => (PrefetchKey \in DOMAIN wl /\ wl[PrefetchKey].items = <<pf>>)
+PPrefetch(man, t, fl, wl, pf) == PrefetchKey \in DOMAIN wl /\ wl[PrefetchKey].items = <<pf>>
 
-\* Named deviation, pinned (not a C20 formula): the extra handler keeps a pre-set annotation of the target child
-\* for every key that containerd's wrapper does not own
+\* Design invariant of the PINNED code (not a C20 formula; it is the mechanism of the known finding): the extra
+\* handler keeps a pre-set annotation of the target child for every key that containerd's wrapper does not own
 PExtraKeepsPreset(man, t, fl, wl) ==
-    fl = "extra" =>
+    (fl = "extra" /\ ~ExtraStripsPreset) =>
         \A i \in 1..Len(Children(man)[t].pre) :
             LET e == Children(man)[t].pre[i] IN
             e.k \in DOMAIN wl /\ wl[e.k].items = PreItems(e)
